@@ -90,6 +90,13 @@ def generate(rng: random.Random, tier: str):
         for o1 in (False, True):
             yield {"kind": "history", "store": "tilde", "fmt": [fmt, fmt, fmt], "pre": "fresh", "entry": "arrays",
                    "calls": [dict(A, ov=False, validate=True), dict(B, ov=o1, validate=True), dict(C, ov=not o1, validate=True)]}
+    # an existing directory that is not a zarr group (for a path: "occupied"): refusal without overwrite, and what overwrite=True does
+    for store in ("path", "str"):
+        for fmt in (2, 3):
+            A, B, C = three_graphs(random.Random(31 + fmt))
+            for o1 in (False, True):
+                yield {"kind": "history", "store": store, "fmt": [fmt, fmt], "pre": "emptydir", "entry": "arrays",
+                       "calls": [dict(A, ov=o1, validate=True), dict(B, ov=not o1, validate=True)]}
     # a geff that shares its directory with foreign members (laid down through a store object), then addressed by path
     for fmt in (2, 3):
         for entry in ("nx", "rx", "arrays"):
